@@ -49,7 +49,7 @@ func Check() *core.Check {
 			if tier == "thorough" {
 				return 8000
 			}
-			return 480
+			return 420
 		},
 		MinConclusive: func(tier string) int { return 200 },
 		NumPinned:     len(pinned),
@@ -87,7 +87,8 @@ func (j *judgeCtx) count(name string, n int64) {
 
 var interestingTags = map[string]bool{"try": true, "catch": true, "finally": true, "iter": true, "with": true, "gen": true, "async": true, "job": true,
 	"native": true, "reentry": true, "tryframes": true, "getter": true, "ctor": true, "scope": true,
-	"comparator": true, "callback": true, "iternext": true, "iterreturn": true, "fieldinit": true, "eval": true, "setter": true, "valueof": true, "method": true}
+	"comparator": true, "callback": true, "iternext": true, "iterreturn": true, "fieldinit": true, "eval": true, "setter": true, "valueof": true, "method": true,
+	"builtin": true, "join": true, "json": true, "toprimitive": true, "regexp": true}
 var nontrivialTags = map[string]bool{"try": true, "catch": true, "finally": true, "iter": true, "with": true, "gen": true, "async": true, "job": true, "native": true, "reentry": true, "tryframes": true}
 
 func (j *judgeCtx) judge(f faultSpec) (*runObs, *problem) {
